@@ -41,7 +41,7 @@ func init() {
 				ruleLockedWrapper(c, a.cacheA)
 				ruleCacheMiddleware(c, a, set("hit-does-not-forward", "hit-serves-stored", "forward-once", "entry-of-request-key", "completion-only-by-fetcher"))
 				ruleProxyMiddleware(c, a, set("forward-once"))
-				ruleCompletionPaths(c, a.cacheA, set("expiry-value", "ttl-positive"))
+				ruleCompletionPaths(c, a.cacheA, set("expiry-value", "ttl-positive", "no-wrap"))
 				ruleGetOrCreate(c)
 				ruleShardFunction(c)
 				ruleEntryWriters(c, a.cacheA)
@@ -79,7 +79,7 @@ func init() {
 			})
 		})
 	register("C04",
-		"Decides that the expiry test (expiredAt >= clock read in this call) is applied on every lookup path that serves a hit or hit-for-pass state, after any load from the store and on the expiry value actually current; that an expired entry is reset; that the stored expiry is clock + ttl with 1 <= ttl <= 2^31 (no wrap) and createdAt is that same clock value; that a woken waiter re-runs the lookup (and its expiry test); that nothing on the lookup path extends the expiry; Age is clock - createdAt and is emitted only on hits; the lifetime recorded for the fetcher is computed from the upstream's own header (Age included), not from the stored copy that drops fields; a hit restored from the store takes createdAt (and a non-zero expiry) from the decoded record. Timed histories themselves are not decided.",
+		"Decides that the expiry test (expiredAt >= clock read in this call) is applied on every lookup path that serves a hit or hit-for-pass state, after any load from the store and on the expiry value actually current; that an expired entry is reset; that the stored expiry is clock + ttl with 1 <= ttl <= 2^31 (no wrap) and createdAt is that same clock value; that a woken waiter re-runs the lookup (and its expiry test); that nothing on the lookup path extends the expiry; Age is clock - createdAt and is emitted only on hits; the lifetime T is s-maxage, else max-age, over all Cache-Control lines, minus a positive Age, computed from the upstream's own header, not from the stored copy that drops fields; a hit restored from the store takes createdAt (and a non-zero expiry) from the decoded record. Timed histories themselves are not decided.",
 		nil, func(c *Ctx) {
 			withAnchors(c, func(a *serverAnchors) {
 				ruleLookup(c, a.cacheA, set("state-determined", "expiry-applied", "invariant-expiry", "hit-data", "returned-status"))
@@ -88,6 +88,7 @@ func init() {
 				ruleStoreLoadAtomic(c, a.cacheA)
 				ruleCacheMiddleware(c, a, set("hit-age", "hit-serves-stored", "store-gate"))
 				ruleProxyMiddleware(c, a, set("lifetime-plumbing"))
+				ruleMaxAge(c, a, set("cache-control-all-lines", "lifetime-source", "smaxage-preferred", "age-subtracted"))
 				ruleAge(c, a.cacheA)
 				ruleResponder(c, a)
 				ruleContextKeys(c, a)
@@ -185,7 +186,7 @@ func init() {
 			})
 		})
 	register("C05",
-		"Decides label/bytes agreement and provenance on every path: each encoding label handed to a client is paired with the stored variant of that coding, the raw body, or a transcode of the raw body; the raw body is RawBody, else gunzip(GzipBody), else brotli-decode(BrBody); upstream bodies are filed under exactly the variant their encoding names and every other documented encoding is decoded by its own codec; Fill writes label, body, status and header of one negotiation; the stored header is a deep copy minus only the fields pike recomputes; pre-compression drops the raw body only when both variants exist; the lz4 destination covers the format's maximum expansion; the five content-coding constants carry the documented wire names. Byte-identity of codec round trips is not decidable statically.",
+		"Decides label/bytes agreement and provenance on every path: each encoding label handed to a client is paired with the stored variant of that coding, the raw body, or a transcode of the raw body; the raw body is RawBody, else gunzip(GzipBody), else brotli-decode(BrBody); upstream bodies are filed under exactly the variant their encoding names and every other documented encoding is decoded by its own codec; Fill writes label, body, status and header of one negotiation; the stored header is a deep copy minus only the fields pike recomputes; pre-compression drops the raw body only when both variants exist; the lz4 destination covers the format's maximum expansion; the five content-coding constants carry the documented wire names; the cache key keeps the request method, so a body-less answer to HEAD is never what a GET is served. Byte-identity of codec round trips is not decidable statically.",
 		nil, func(c *Ctx) {
 			withAnchors(c, func(a *serverAnchors) {
 				ruleDecisionTable(c)
@@ -201,6 +202,7 @@ func init() {
 				ruleLZ4Bound(c)
 				ruleProxyMiddleware(c, a, set("response-built", "location-edits-order"))
 				ruleCacheMiddleware(c, a, set("hit-serves-stored"))
+				ruleKey(c)
 				ruleResponder(c, a)
 				ruleContextKeys(c, a)
 			})
